@@ -75,6 +75,13 @@ def generate(rng, tier):
                     c['method'] = rng.choice(['cosine', 'rho-a'])
                 elif c['k_pattern'] == 2 and nc < 6:
                     c['k_pattern'] = 1
+            if kind == 'cv' and c['sets'] in ('k_fold', 'loo_pattern') and rng.random() < 0.5:
+                # the conditions are named by a pattern descriptor whose values are unique but not ascending (stimulus names /
+                # codes): folds, training indices and predictions are then selected by label (seeded change C04-m7)
+                lab = [3 * v + 2 for v in range(nc)]
+                while lab == sorted(lab):
+                    rng.shuffle(lab)
+                c['plabel'] = lab
             if kind == 'icv':
                 c['sets'] = 'k_fold'
                 c['n_cond'] = nc = rng.choice([6, 7])
@@ -236,16 +243,22 @@ def run(c):
                                 and np.array_equal(res.variances, res2.variances, equal_nan=True))
     elif call in ('cv', 'icv'):
         fit = Fitter()
+        pdesc = 'index'
+        if call == 'cv' and c.get('plabel'):
+            pdesc = 'stim'
+            D.pattern_descriptors['stim'] = list(c['plabel'])
+            for mdl in models:
+                mdl.rdm_obj.pattern_descriptors['stim'] = list(c['plabel'])
         if call == 'cv':
             if c['sets'] == 'k_fold':
-                tr, te, ce = sets_k_fold(D, k_pattern=c['k_pattern'], k_rdm=c['k_rdm'], random=False)
+                tr, te, ce = sets_k_fold(D, k_pattern=c['k_pattern'], k_rdm=c['k_rdm'], random=False, pattern_descriptor=pdesc)
             elif c['sets'] == 'loo_pattern':
-                tr, te, ce = sets_leave_one_out_pattern(D, 'index')
+                tr, te, ce = sets_leave_one_out_pattern(D, pdesc)
             else:
                 tr, te, ce = sets_leave_one_out_rdm(D)
             tr0 = copy.deepcopy(tr)
             te0 = copy.deepcopy(te)
-            res = EV.crossval(models, D, tr, te, ce, method=c['method'], fitter=fit)
+            res = EV.crossval(models, D, tr, te, ce, method=c['method'], fitter=fit, pattern_descriptor=pdesc)
             drawn = None
         else:
             # the precondition under which bootstrap_crossval calls _internal_cv
@@ -281,6 +294,13 @@ def run(c):
                            train_idx=[int(x) for x in np.atleast_1d(tr0[i][1])], test_idx=[int(x) for x in np.atleast_1d(te0[i][1])],
                            train_vecs=vecs(tr0[i][0]), test_vecs=vecs(te0[i][0])) for i in range(len(tr0))]
         o['fitter_calls'] = fit.calls
+        if pdesc == 'stim':      # labels -> positions: the model and the oracle work with positions
+            pos = {v: i for i, v in enumerate(c['plabel'])}
+            for f in o['folds']:
+                f['train_idx'] = [pos[v] for v in f['train_idx']]
+                f['test_idx'] = [pos[v] for v in f['test_idx']]
+            for cl in o['fitter_calls']:
+                cl['pattern_idx'] = [pos[v] for v in cl['pattern_idx']]
     elif call == 'dual':
         fit = Fitter()
         kw = dict(method=c['method'], fitter=fit, k_pattern=c['k_pattern'], k_rdm=c['k_rdm'], N=c['N'], n_cv=c['n_cv'],
@@ -404,7 +424,8 @@ def to_coq(c, o):
                 ths = [cl['theta'] for cl in mine]
             else:
                 ths = [[] for _ in range(M)]
-            folds.append(f"(mkEF ({fnat(a)}, {fnat(b)}, {fnat(cc)}, {fnat(d)}) {flist(ths, fqlist)} {fzlist(f['test_idx'])} "
+            folds.append(f"(mkEF ({fnat(a)}, {fnat(b)}, {fnat(cc)}, {fnat(d)}) {flist(ths, fqlist)} "
+                         f"{fzlist(sorted(f['test_idx']) if c.get('plabel') else f['test_idx'])} "
                          f"{flist(f['test_vecs'], fov)} {fov(ev[:, i].tolist())})")
         drawn = fopt(o['drawn'], fzlist)
         return f"(ECv {m} {n} {fmodels(c)} {drawn} {flist(folds, str)})"
